@@ -87,7 +87,7 @@ func runConcretiser(v *Verifier, prop string, ob *Obligation, rp *Replay) {
 		if !strings.HasPrefix(ln, "REPLAY-FAIL") {
 			continue
 		}
-		if clause != "" && strings.Contains(ln, "clause="+clause+" ") {
+		if clause != "" && strings.Contains(ln, "clause="+clause+" ") && strings.Contains(ln, "fn="+ob.Fn+" ") {
 			hits = append(hits, ln)
 		}
 	}
